@@ -255,7 +255,10 @@ fn groups_xml(t: &str) -> Option<String> {
     }
     let mut s = String::new();
     for g in t.split(',') {
-        s.push_str(&format!("<mbms2005:Group>{}</mbms2005:Group>", esc(&unhx(g)?)));
+        // element text is written the way the sender writes it (TAB / LF / CR literally), so that the receiver's
+        // end-of-line normalisation of element content applies as it does to a real instance
+        let t = esc(&unhx(g)?).replace("&#9;", "\t").replace("&#10;", "\n").replace("&#13;", "\r");
+        s.push_str(&format!("<mbms2005:Group>{}</mbms2005:Group>", t));
     }
     Some(s)
 }
